@@ -80,8 +80,8 @@ def c30_session(rep, seed, sched_seed, rounds, distinct):
                     enc.append(f"r{e['u']}" if e["u"] >= NDISK else f"e{e['u']}:{900 + e['u']}")
                 else:
                     enc.append(f"e{e['u']}:{e['t']}")
-            model = run_driver([f"scheddiag.explore real {','.join(enc)} {','.join(map(str, range(NURIS)))} 400000"])[0] \
-                if len(evs) <= 5 else "skipped (list too long for exhaustive exploration)"
+            model = run_driver([f"scheddiag.explore real {','.join(enc)} {','.join(map(str, range(NURIS)))} 3000000"])[0] \
+                if len(evs) <= 4 else "skipped (list too long for exhaustive exploration)"
             for u in range(NURIS):
                 last_ev = next((e for e in reversed(evs) if e["u"] == u), None)
                 if last_ev is None:
